@@ -87,3 +87,27 @@ PROPS["C03"] = dict(
     explanation="Every loop of the screen operations has a decreases measure (termination proved) and iterates over ranges bounded "
                 "by the margins / screen / row count, not by numeric parameters; erase_charcter's count is proved clamped to the width.",
 )
+
+LOADER_TRUST = COMMON_TRUST + [
+    "N6: error payloads (anyhow::Error, LoadingError/SauceError values) are replaced by an opaque local error type; error *construction* arguments that index the input are kept",
+    "input byte strings are shorter than 2^31 - 65536 bytes (MAXLEN)",
+    "O1 stubs with assumed total contracts: chrono date parsing (vx_parse_date), Display of SauceString (vx_sstr_to_string)",
+]
+PROPS["C11"] = dict(
+    units=["sauce"],
+    trusted_base=LOADER_TRUST + ["array-vs-slice comparison `SAUCE_ID != data[o..o+5]` is uninterpreted in Verus: which files are *recognised* as carrying SAUCE is not decided, only what is cut when they are"],
+    unverified_remainder=["Buffer::write_sauce_info (chrono, font table, String -> SauceString::from): the writer side is covered only through SauceString::append_to and the field round-trip lemma",
+                          "equality of the loaded pictures beyond byte-identical loader input (argued from determinism of the loaders)"],
+    explanation="SauceString::{read,len,append_to} are proved against the SAUCE rev-5 field codec (LEN bytes, content then padding) and "
+                "lemma_sauce_field_roundtrip proves read(append_to(s)) equal to s under the type's trimmed equality for every content "
+                "without interior NUL. SauceData::extract is proved to return sauce_header_len == EOF byte + COMNT block (5 + 64 n) + 128 "
+                "exactly (sauce_cut), never more than the input, for every input.",
+)
+PROPS["C02"] = dict(
+    units=["sauce"],
+    trusted_base=LOADER_TRUST,
+    unverified_remainder=["IcyDraw load_buffer (PNG decoder callbacks, zTXt, base64)", "Palette::load_palette (regex)",
+                          "text formats load through parse_with_parser -> an emulation on a non-terminal buffer (C01's unit covers terminal buffers)"],
+    explanation="Each loader function under contract is total: no precondition on the data, and every slice, index, subtraction, "
+                "unwrap and assert obligation is discharged from the length tests in the code.",
+)
